@@ -8,7 +8,7 @@ from vt.core import Checker, lib, dense, dense_abs, DT, UNIT, MANT, fro
 RULE = ("Hypothesis draws a routine (norm plain/squared with autograd off/on-by-leaf/on-by-graph, sum(), sum(index) "
         "for every kind of subset, dot(a,b), dot(a,b,axis) for sorted subsets, bilinear_form rectangular), tensors and "
         "operators of order 1-5, mode sizes from {1,2,3,4,5} (singleton modes next to ranks>1), ranks 1-4, "
-        "real/complex/float32, zero tensors, integer (exact where every partial sum is below the mantissa) or Gaussian "
+        "real/complex/float32, zero tensors, data scale 10^{0,+-3,+-6}, integer (exact where every partial sum is below the mantissa) or Gaussian "
         "payload. Oracle: the dense reduction on the checker's own contraction, including the result *shape*. "
         "Non-trivial: some rank>1 and, for subset reductions, a strict non-empty subset. Distinct = structural signature.")
 BUDGET = {"quick": 12000, "thorough": 600000}
@@ -27,7 +27,8 @@ def strategy_case(draw):
     dmax = 4 if ttm else 5
     x = draw(gen.tt_spec(dmin=1, dmax=dmax, sizes=SZ, ttm=ttm, maxnumel=1500 if not ttm else 40))
     zero = draw(st.floats(0, 1)) < 0.04
-    case = {"op": op, "x": x, "zero": zero}
+    # every clause is relative, so the data scale must not matter (one core of x is multiplied by 10^k)
+    case = {"op": op, "x": x, "zero": zero, "scale10": draw(st.sampled_from([0, 0, 0, 0, -3, -6, 3, 6]))}
     d = len(x["N"])
     if op == "norm":
         case["squared"] = draw(st.booleans())
@@ -101,6 +102,11 @@ def execute(case):
         xc[k] = torch.zeros_like(xc[k])
         ck.label("zero")
     exact = xs["mode"] == "int"
+    if case.get("scale10", 0):
+        k = (xs["seed"] // 7) % d
+        xc[k] = xc[k] * (10.0 ** case["scale10"])
+        exact = False
+        ck.label("scaled")
     ck.label("op:" + op, "dt:" + dt, "order:%d" % d, "payload:" + xs["mode"])
     if ttm:
         ck.label("operator")
